@@ -140,6 +140,7 @@ pub fn driver(tier: Tier, path: &str) -> i32 {
     // JSON types
     let mut pool = crate::enumr::pool_full();
     pool.extend(vec![json!(u64::MAX), json!(i64::MIN), json!(1e300), json!(-0.0), json!({"a": [1, {"a": u64::MAX}], "b": 1.5}), json!([[[]]])]);
+    pool.extend(crate::enumr::neighbour_docs());
     if tier == Tier::Thorough {
         pool.extend(crate::enumr::docs_d22_reduced());
         pool = crate::enumr::dedup(pool);
@@ -279,6 +280,32 @@ pub fn driver(tier: Tier, path: &str) -> i32 {
         emit(&mut ctx, "std::time::Duration", "1.5s", &|e| e.search(std::time::Duration::from_millis(1500)));
         emit(&mut ctx, "std::net::Ipv4Addr", "127.0.0.1", &|e| e.search(std::net::Ipv4Addr::new(127, 0, 0, 1)));
     }
+    // compile sequences in one process: an expression, then the same text with white space that JMESPath does not
+    // skip (and with ordinary white space) before / after it -- the outcome of each compile is the same in every
+    // configuration, whatever was compiled before
+    {
+        let spaces = ["\u{b}", "\u{c}", "\u{85}", "\u{a0}", "\u{2028}", "\u{3000}", "\u{feff}", " ", "\t", "\n", "\r\n"];
+        let d = json!({"foo": {"bar": [1, 2]}, "a": "x"});
+        let rc = crate::implx::value_to_var(&d);
+        for base in ["foo.bar[0]", "a", "length(foo.bar)", "foo.*", "`1`", "'r'"] {
+            let mut variants: Vec<String> = vec![base.to_string()];
+            for w in spaces {
+                variants.push(format!("{}{}", base, w));
+                variants.push(format!("{}{}", w, base));
+                variants.push(format!("{}{}{}", w, base, w));
+            }
+            variants.push(base.to_string());
+            for (i, v) in variants.iter().enumerate() {
+                let line = match guarded(|| jmespath::compile(v)) {
+                    Ok(Ok(e)) => format!("compiles; as_str {:?}; {}", e.as_str(), match guarded(|| e.search(rc.clone())) { Ok(r) => render(r), Err(m) => format!("PANIC {}", m) }),
+                    Ok(Err(e)) => format!("compile error {:?} at {}", classify(&e), e.offset),
+                    Err(m) => format!("PANIC {}", m),
+                };
+                writeln!(ctx.out, "sequence|{} #{} {:?} => {}", base, i, v, line).ok();
+                ctx.lines += 1;
+            }
+        }
+    }
     // compile + search outcomes of every short sentence
     let g = Grammar::new(Relax::default());
     let alpha = t32();
@@ -371,7 +398,7 @@ pub fn run(tier: Tier, files: &[(String, String)]) -> i32 {
     }
     rep.guard("all input types were exercised", ["i8", "u16", "i64", "usize", "f32", "f64", "()", "bool", "&str", "String", "Value", "&Value", "Rcvar", "&Rcvar", "Variable", "&Variable", "sentence", "generic"].iter().all(|k| st.outcomes.contains_key(*k)));
     rep.guard("four configurations compared", contents.len() == 4);
-    rep.rule = "one driver built under {default, sync, specialized, sync+specialized}: every specially handled input type (Value, &Value, Rcvar, &Rcvar, Variable, &Variable, String, &str, i8..i64, u8..u64, isize, usize, f32, f64, (), bool) x its value alphabet (all 2^8 and 2^16 values of the narrow widths, per-bit boundaries of the wide ones, floats incl. subnormal / NaN / inf, the document pool) x 12 expressions, 35 kinds of inputs that only the generic Serialize path handles (128-bit integers at the 64-bit boundaries, alone and inside Vec / Option / struct / every enum variant kind, maps keyed by u8 / bool / char / tuple / i64, char, unit struct, Result, Duration, Ipv4Addr) x 6 expressions compared across configurations only, plus compile+search outcomes of every sentence over T32 up to the length bound on 4 documents: the four outputs are byte-identical and each line equals the reference (serde_json::to_value(input), then R-eval). states = cases per configuration; transitions = cases x configurations; non-trivial = non-null value".into();
+    rep.rule = "one driver built under {default, sync, specialized, sync+specialized}: every specially handled input type (Value, &Value, Rcvar, &Rcvar, Variable, &Variable, String, &str, i8..i64, u8..u64, isize, usize, f32, f64, (), bool) x its value alphabet (all 2^8 and 2^16 values of the narrow widths, per-bit boundaries of the wide ones, floats incl. subnormal / NaN / inf, the document pool) x 12 expressions, 35 kinds of inputs that only the generic Serialize path handles (128-bit integers at the 64-bit boundaries, alone and inside Vec / Option / struct / every enum variant kind, maps keyed by u8 / bool / char / tuple / i64, char, unit struct, Result, Duration, Ipv4Addr) x 6 expressions compared across configurations only, plus compile+search outcomes of every sentence over T32 up to the length bound on 4 documents: the four outputs are byte-identical and each line equals the reference (serde_json::to_value(input), then R-eval). states = cases per configuration; transitions = cases x configurations; non-trivial = non-null value Compile sequences (an expression, then the same text with 11 kinds of white space before / after it, then the expression again) are compared across configurations.".into();
     rep.bounds = json!({"configs": files.iter().map(|f| f.0.clone()).collect::<Vec<_>>(), "expressions": EXPRS});
     rep.stats = st;
     rep.finish()
